@@ -177,7 +177,7 @@ func StringR(name string, n int, lo, hi byte) string {
 var tempDir string
 
 // ModelRoot is the root directory of the engine's file-system model.
-const ModelRoot = "/vr"
+const ModelRoot = "/vr/root"
 
 // TempDir returns the data root: a directory of the engine's file-system model, or a
 // fresh real temporary directory when the harness is replayed natively.
@@ -187,7 +187,11 @@ func TempDir() string {
 		if err != nil {
 			panic(err)
 		}
-		tempDir = d
+		// the data root sits alone inside a sandbox directory, so that anything written next to it shows
+		tempDir = filepath.Join(d, "root")
+		if err := os.Mkdir(tempDir, 0o755); err != nil {
+			panic(err)
+		}
 	}
 	return tempDir
 }
@@ -195,7 +199,7 @@ func TempDir() string {
 // Cleanup removes the native temporary directory.
 func Cleanup() {
 	if tempDir != "" {
-		os.RemoveAll(tempDir)
+		os.RemoveAll(filepath.Dir(tempDir))
 		tempDir = ""
 	}
 }
@@ -311,3 +315,17 @@ func Carry(tag string, v int64) int64 {
 // it may queue work or set flags and returns true to let the blocked operation retry (one more
 // ticker event is granted so that a loop iteration happens). Natively it is never called.
 func OnIdle(f func() bool) {}
+
+
+// OutsideWrites reports a path outside the data root that a file-mutating call touched ("" if none).
+// Engine: from the file-system model's log of mutated paths. Natively: anything that appeared in the
+// sandbox directory next to the root.
+func OutsideWrites(root string) string {
+	ents, _ := os.ReadDir(filepath.Dir(root))
+	for _, e := range ents {
+		if e.Name() != filepath.Base(root) {
+			return filepath.Join(filepath.Dir(root), e.Name())
+		}
+	}
+	return ""
+}
